@@ -232,6 +232,8 @@ def pattern_evm_differential(chain, rnd, extra=40):
             addr = chain.set_code(None, code)
             r = chain.call(addr, b"")
             outs.append((r.ok, r.out.hex()))
+        if not outs[0][0]:
+            continue      # not stack-safe (underflow in the unoptimised program): outside the quantifier
         n += 1
         if outs[0] != outs[1]:
             return n, {"assembly": show(prog), "optimized_assembly": show(opt), "unoptimized_result": outs[0],
